@@ -167,6 +167,18 @@ example : FirstSuch (fun x => x ∈ [NextProtocol.ntpv4]) [.draftNtpv5, .ntpv4] 
 example : FirstSuch (fun x => ∀ id, x ≠ Aead.unknown id) [.unknown 16, .siv512, .siv256] .siv512 :=
   ⟨[.unknown 16], [.siv256], rfl, by simp, by simp⟩
 
+/-- evaluated: the client lists [unknown 16, 512, 256] and [unknown, v4, v5]; a server that accepts v5 and v4 (in that
+    order of its own) answers the CLIENT's first acceptable pair (v4, 512), with cookies for exactly that pair -/
+example : (handleConnection { protocols := [.draftNtpv5, .ntpv4], tokens := [], server := none, port := none }
+    (fun p a => if p = .ntpv4 ∧ a = .siv512 then some { c2s := [1], s2c := [2] } else some { c2s := [9], s2c := [9] })
+    false (.ok (.keyExchange [.unknown 16, .siv512, .siv256] [.unknown 32770, .ntpv4, .draftNtpv5] []))).items
+    = keResponse { protocols := [.draftNtpv5, .ntpv4], tokens := [], server := none, port := none }
+        .ntpv4 .siv512 { c2s := [1], s2c := [2] } false := by decide
+
+/-- repeated entries and an unknown id between the supported ones do not change the choice -/
+example : FirstSuch (fun x => ∀ id, x ≠ Aead.unknown id) [.unknown 0, .unknown 0, .siv256, .unknown 18, .siv256, .siv512]
+    .siv256 := ⟨[.unknown 0, .unknown 0], [.unknown 18, .siv256, .siv512], rfl, by simp, by simp⟩
+
 /-- hypothesis of `client_adopts_only_offered` / `same_keys`: an upgrading client served by a v4+v5 server -/
 example : (handleConnection { protocols := [.ntpv4, .draftNtpv5], tokens := [], server := none, port := none }
     (fun _ _ => some { c2s := [1], s2c := [2] }) false
